@@ -176,6 +176,47 @@ theorem C15_bytes_are_frames (m : Nat) (hm : 0 < m) (q : List OutFrame)
       rw [hd (h b List.mem_cons_self), (iov_layout b).1, ih (fun b' hb' => h b' (List.mem_cons_of_mem _ hb'))]
   rw [this _ hdone, hb]
 
+
+theorem batches_take_flatten (m : Nat) (hm : 0 < m) (fuel : Nat) (q : List OutFrame) (hf : q.length ≤ fuel) (k : Nat) :
+    ((batches m fuel q).take k).flatten = q.take (k * m) := by
+  induction fuel generalizing q k with
+  | zero =>
+    have : q = [] := List.length_eq_zero_iff.mp (by omega)
+    subst this; simp [batches]
+  | succ fuel ih =>
+    cases q with
+    | nil => simp [batches]
+    | cons x xs =>
+      have hm0 : m ≠ 0 := by omega
+      cases k with
+      | zero => simp
+      | succ k =>
+        simp only [batches, hm0, if_false, List.take_succ_cons, List.flatten_cons]
+        rw [ih _ (by simp only [List.length_drop, List.length_cons] at hf ⊢; omega)]
+        have : (k + 1) * m = m + k * m := by rw [Nat.add_mul, Nat.one_mul, Nat.add_comm]
+        rw [this, List.take_add]
+
+/-- **C15, a close never cuts a frame.** Whenever the connection is closed by the server while frames are queued — an
+    overflow close, a ping timeout, shutdown — and however far the writer had got, the peer receives the renderings of a
+    prefix of the queue, whole frames in order, then the closing frame. -/
+theorem C15_close_between_frames (m : Nat) (hm : 0 < m) (q : List OutFrame) (k : Nat) (closing : List Byte) :
+    ∃ j, j ≤ q.length ∧ loopOut m q k closing = ((q.take j).map render).flatten ++ closing := by
+  refine ⟨min (k * m) q.length, Nat.min_le_right _ _, ?_⟩
+  unfold loopOut
+  congr 1
+  have h1 : ∀ bs : List (List OutFrame), (bs.map (fun b => (b.flatMap iovs).flatten)).flatten = (bs.flatten.map render).flatten := by
+    intro bs
+    induction bs with
+    | nil => rfl
+    | cons b bs ih =>
+      simp only [List.map_cons, List.flatten_cons, List.map_append, List.flatten_append, ih, (iov_layout b).1]
+  rw [h1, batches_take_flatten m hm q.length q (Nat.le_refl _) k]
+  congr 2
+  by_cases h : k * m ≤ q.length
+  · rw [Nat.min_eq_left h]
+  · have h' : q.length ≤ k * m := by omega
+    rw [Nat.min_eq_right h', List.take_of_length_le h', List.take_of_length_le (Nat.le_refl _)]
+
 /-! ## slow consumers -/
 
 /-- sending never blocks and never loses silently: the frame is queued, or this connection's close is requested -/
@@ -224,3 +265,4 @@ end Narwhal.Writer
 #print axioms Narwhal.Writer.trySend_total
 #print axioms Narwhal.Writer.C15_non_interference
 #print axioms Narwhal.Writer.C15_overflow_closes_self
+#print axioms Narwhal.Writer.C15_close_between_frames
